@@ -718,6 +718,12 @@ impl Watch {
         } else {
             ctx.owed.extend(self.m.subs.iter().cloned());
             ctx.owed.extend(self.m.unsubs.iter().cloned());
+            if !self.m.persistent && !self.m.store.is_empty() && self.ep.stored().len() == self.m.store.len() {
+                // only offline publishing stores in a non-persistent session
+                self.note(format!("{what} -> {}", evs_short(&evs)));
+                self.flag(&["C06"], "offline-queued-packet-kept-after-nonpersistent-close", format!("{what}: the session is not persistent, the ids of its in-flight publishes are released, but {} packet(s) stay in the exported store without their id being held", self.m.store.len()));
+                return evs;
+            }
             if !self.m.persistent {
                 for o in &self.m.out {
                     if o.stage == Stage::GotPubrec {
